@@ -371,7 +371,7 @@ def null_preserving(fn, S, U, t, leaf, body):
         if leaf is not None and head(S) in ('tea_time::DateTime',) and leaf.endswith('into_opt_i64()'):
             return True, 'delegates to into_opt_i64 (NAT.guard)'
         rows_null = {l for cs, l, ef in t if '!VALID(self)' in cs or '(self == str:None)' in cs}
-        rows_val = {l for cs, l, ef in t if 'VALID(self)' in cs or '!(self == str:None)' in cs}
+        rows_val = {l for cs, l, ef in t if 'VALID(self)' in cs or '(self != str:None)' in cs}
         ok = rows_null == {'NULL'} and bool(rows_val) and all(l.startswith('Some(') for l in rows_val)
         if not ok and leaf is not None and 'map(Some)' in body:
             ok = True
